@@ -24,7 +24,19 @@ const (
 	lkArrElem            // element idx of array value stored at parent
 	lkSub                // field of struct value stored at parent
 	lkGlobal             // heap key G:pkg.name
+	lkArray              // a whole array resident in memory: heap key M:elemsort [base] (base: its own ref, or arrBase(obj, field))
 )
+
+// validBlock: b names a memory block that exists when the allocation counter is alloc: a slice/array allocated
+// earlier (0 <= b < alloc; 0 = nil) or the array field of an object allocated earlier.
+func validBlock(b, alloc Term) Term {
+	return and(lt(b, alloc), lt(app(sInt, "-", app(sInt, "*", tInt(64), alloc)), b))
+}
+
+// arrBase: the memory block of the array-typed field #field of object ref (negative: never an allocated ref).
+func arrBase(ref Term, field int) Term {
+	return sub(tInt(int64(-(field + 1))), app(sInt, "*", ref, tInt(64)))
+}
 
 type Loc struct {
 	kind   locKind
@@ -111,6 +123,12 @@ func (ex *Exec) obName(kind string) string {
 }
 
 func (ex *Exec) safety(kind string, guard, goal Term, at ssa.Instruction, comment string) {
+	// execution continues past this point only if the run-time check passed
+	defer func() {
+		if ex.q.pureDepth == 0 {
+			ex.q.assume(implies(guard, goal))
+		}
+	}()
 	if ex.skipSafety {
 		return
 	}
@@ -285,10 +303,28 @@ func (ex *Exec) typeFacts(v Term, t types.Type) {
 			ex.q.assume(and(le(tInt(0), strLen(v)), le(tInt(0), strOff(v)), le(strLen(v), tIntS(maxLen))))
 		}
 	case *types.Slice:
-		ex.q.assume(and(le(tInt(0), slOff(v)), le(tInt(0), slLen(v)), le(slLen(v), slCap(v)), le(slCap(v), tIntS(maxLen)),
-			le(tInt(0), slBase(v))))
+		ex.q.assume(and(le(tInt(0), slOff(v)), le(tInt(0), slLen(v)), le(slLen(v), slCap(v)), le(slCap(v), tIntS(maxLen))))
 	case *types.Pointer, *types.Map:
 		ex.q.assume(le(tInt(0), v))
+	case *types.Struct:
+		for i := 0; i < u.NumFields(); i++ {
+			switch u.Field(i).Type().Underlying().(type) {
+			case *types.Basic, *types.Slice, *types.Struct:
+				ex.typeFacts(ex.q.so.structField(v, u, i), u.Field(i).Type())
+			}
+		}
+	case *types.Interface:
+		// the dynamic type of a non-nil value of a repo-declared interface type is one of its implementers
+		if n, ok := t.(*types.Named); ok && n.Obj().Pkg() != nil && strings.HasPrefix(n.Obj().Pkg().Path(), "grol.io/grol") {
+			impls := ex.P.implementers(t)
+			if len(impls) > 0 && len(impls) <= 64 {
+				cs := []Term{eq(ifTag(v), tInt(0))}
+				for _, it := range impls {
+					cs = append(cs, eq(ifTag(v), tInt(int64(ex.q.so.tag(it)))))
+				}
+				ex.q.assume(or(cs...))
+			}
+		}
 	}
 }
 
@@ -321,6 +357,9 @@ func (ex *Exec) regKey(key, sort string) string {
 func (ex *Exec) fieldLoc(base Term, st types.Type, i int, root ssa.Value) *Loc {
 	u := st.Underlying().(*types.Struct)
 	ft := u.Field(i).Type()
+	if at, ok := ft.Underlying().(*types.Array); ok {
+		return &Loc{kind: lkArray, key: ex.memKey(at.Elem()), base: arrBase(base, i), typ: ft, root: root, field: i}
+	}
 	key := ex.regKey(fieldKey(st, i), arrSort(sInt, ex.q.so.sortOf(ft)))
 	return &Loc{kind: lkField, key: key, base: base, typ: ft, root: root}
 }
@@ -342,6 +381,9 @@ func (ex *Exec) locOf(v ssa.Value) *Loc {
 	if _, isStruct := pt.Elem().Underlying().(*types.Struct); isStruct {
 		return &Loc{kind: lkObj, base: ref, typ: pt.Elem(), root: v}
 	}
+	if at, ok := pt.Elem().Underlying().(*types.Array); ok {
+		return &Loc{kind: lkArray, key: ex.memKey(at.Elem()), base: ref, typ: pt.Elem(), root: v, field: -1}
+	}
 	s := ex.q.so.sortOf(pt.Elem())
 	key := ex.regKey("C:"+s, arrSort(sInt, s))
 	return &Loc{kind: lkCell, key: key, base: ref, typ: pt.Elem(), root: v}
@@ -357,7 +399,7 @@ func (ex *Exec) load(l *Loc, h *Heap) Term {
 			fs = append(fs, ex.load(ex.fieldLoc(l.base, l.typ, i, l.root), h))
 		}
 		return q.so.mkStruct(q.so.sortOf(l.typ), fs)
-	case lkField, lkCell:
+	case lkField, lkCell, lkArray:
 		return sel(q.heapGet(h, l.key), l.base)
 	case lkGlobal:
 		return q.heapGet(h, l.key)
@@ -380,7 +422,7 @@ func (ex *Exec) storeLoc(l *Loc, h *Heap, v Term) {
 		for i := 0; i < st.NumFields(); i++ {
 			ex.storeLoc(ex.fieldLoc(l.base, l.typ, i, l.root), h, q.so.structField(v, st, i))
 		}
-	case lkField, lkCell:
+	case lkField, lkCell, lkArray:
 		q.heapSet(h, l.key, store(q.heapGet(h, l.key), l.base, v))
 	case lkGlobal:
 		q.heapSet(h, l.key, v)
@@ -615,7 +657,11 @@ func (ex *Exec) instr(ins ssa.Instruction, b *ssa.BasicBlock, h *Heap, reach Ter
 			if !(isByteType(x.Index.Type()) && at.Len() == 256) {
 				ex.safety("safe.index", reach, and(le(tInt(0), idx), lt(idx, tInt(at.Len()))), x, "array index")
 			}
-			ex.locs[x] = &Loc{kind: lkArrElem, parent: pl, idx: idx, typ: at.Elem(), root: pl.root}
+			if pl.kind == lkArray {
+				ex.locs[x] = &Loc{kind: lkSliceElem, key: pl.key, base: pl.base, idx: idx, typ: at.Elem(), root: pl.root}
+			} else {
+				ex.locs[x] = &Loc{kind: lkArrElem, parent: pl, idx: idx, typ: at.Elem(), root: pl.root}
+			}
 		default:
 			unsupported("IndexAddr on %s", x.X.Type())
 		}
@@ -947,7 +993,7 @@ func (ex *Exec) unop(x *ssa.UnOp, h *Heap, reach Term) {
 			q.assume(lt(v, q.heapGet(h, allocKey)))
 		}
 		if _, isSl := x.Type().Underlying().(*types.Slice); isSl && q.pureDepth == 0 {
-			q.assume(lt(slBase(v), q.heapGet(h, allocKey)))
+			q.assume(validBlock(slBase(v), q.heapGet(h, allocKey)))
 		}
 	case token.NOT:
 		ex.setVal(x, not(ex.val(x.X)))
@@ -1470,6 +1516,10 @@ func (ex *Exec) slice(x *ssa.Slice, h *Heap, reach Term) {
 			hi = tInt(at.Len())
 		}
 		ex.safety("safe.slice", reach, and(le(tInt(0), lo), le(lo, hi), le(hi, tInt(at.Len()))), x, "array slice bounds")
+		if pl.kind == lkArray {
+			ex.setVal(x, mkSlice(pl.base, lo, sub(hi, lo), sub(tInt(at.Len()), lo)))
+			return
+		}
 		base := ex.alloc(h, "arrview")
 		key := ex.memKey(at.Elem())
 		q.heapSet(h, key, store(q.heapGet(h, key), base, ex.load(pl, h)))
@@ -1511,7 +1561,17 @@ func (ex *Exec) unbox(t types.Type, iv Term) Term {
 	bn, un := "box_"+sanitize(t.String()), "unbox_"+sanitize(t.String())
 	q.declFun(bn, "("+s+") Int")
 	q.declFun(un, "(Int) "+s)
-	return app(s, un, ifVal(iv))
+	r := app(s, un, ifVal(iv))
+	if q.pureDepth == 0 {
+		// payloads of dynamic type t are exactly the boxed values of t (box and unbox are inverse)
+		k := "boxinv|" + iv.S + "|" + bn
+		if !q.nilChecked[k] {
+			q.nilChecked[k] = true
+			q.assume(implies(eq(ifTag(iv), tInt(int64(q.so.tag(t)))), eq(app(sInt, bn, r), ifVal(iv))))
+			ex.typeFacts(r, t)
+		}
+	}
+	return r
 }
 
 func (ex *Exec) typeAssert(x *ssa.TypeAssert, reach Term) {
